@@ -9,6 +9,7 @@ package c05
 
 import (
 	"fmt"
+	"github.com/emitter-io/emitter/internal/verifx/c19"
 	"strings"
 	"sync/atomic"
 
@@ -52,6 +53,21 @@ func forwardsTo(env *brokerx.Env, peer mesh.PeerName, ssid message.Ssid) bool {
 }
 
 func concScenarios() map[string]*sched.Scenario {
+	m := concScenarios0()
+	// forwarding: two publishers hand messages to one real Peer while its flush timer runs (C19's scenario,
+	// judged here as "every forwarded message reaches the peer once")
+	ps := c19.PeerScenario()
+	fw := *ps
+	fw.Name = "peer-forward"
+	fw.Check = func(x *sched.Exec) (string, string) {
+		sig, what := ps.Check(x)
+		return strings.Replace(sig, "e:peer:", "concurrent-forward:", 1), what
+	}
+	m["peer-forward"] = &fw
+	return m
+}
+
+func concScenarios0() map[string]*sched.Scenario {
 	return map[string]*sched.Scenario{"first-contact": {
 		Name: "first-contact", Files: []string{"internal/service/cluster/memberlist.go"}, YieldsOnly: true,
 		Body: func(s *sched.Sched) {
